@@ -72,6 +72,36 @@ theorem view_syncBodies (topics : List τ) (retained : List μ) (t : τ) :
   rw [foldl_applyView_msg, foldl_applyView_sub]
   simp
 
+theorem foldl_applyView_mono (mid : List (PBody τ μ)) : ∀ (v tps : List τ), (∀ t, t ∈ v → t ∈ tps) →
+    ∀ t, t ∈ mid.foldl applyView v → t ∈ mid.foldl applyView tps := by
+  induction mid with
+  | nil => intro v tps h t ht; exact h t ht
+  | cons b bs ih =>
+    intro v tps h t ht
+    simp only [List.foldl_cons] at ht ⊢
+    refine ih (applyView v b) (applyView tps b) ?_ t ht
+    intro x hx
+    rw [mem_applyView] at hx ⊢
+    rcases hx with hx | ⟨h1, h2⟩
+    · exact Or.inl hx
+    · exact Or.inr ⟨h x h1, h2⟩
+
+/-- everything the events `mid` leave subscribed is in the topic set they were applied to -/
+theorem view_sub_foldl (mid : List (PBody τ μ)) (tps : List τ) (t : τ) (h : t ∈ view mid) :
+    t ∈ mid.foldl applyView tps :=
+  foldl_applyView_mono mid [] tps (by simp) t h
+
+/-- events queued in the window after `clear()` followed by the resynchronisation of the topic set as it is then -/
+theorem view_mid_syncBodies (mid : List (PBody τ μ)) (tps : List τ) (retained : List μ) (t : τ) :
+    t ∈ view (mid ++ syncBodies (mid.foldl applyView tps) retained) ↔ t ∈ mid.foldl applyView tps := by
+  simp only [view, syncBodies, List.foldl_append]
+  rw [foldl_applyView_msg, foldl_applyView_sub]
+  constructor
+  · rintro (h | h)
+    · exact view_sub_foldl mid tps t h
+    · exact h
+  · intro h; exact Or.inr h
+
 /-! ### the receiver's duplicate filter -/
 
 theorem see_cases (ss : Sess) (id : Nat) :
@@ -562,37 +592,37 @@ theorem setpos_zero_front {q : EQ (PBody τ μ)} {bs : List (PBody τ μ)} (hq :
     cases q
     simp_all
 
-omit [DecidableEq τ] in
-/-- the sender after a clean start: queue cleared, one event per local topic and retained message, cursor at the front,
-    `synced`, `ackFloor = 0` -/
-theorem helloS_clean (s : Sender τ μ) :
-    let s' := helloS s true 0
-    s'.hist = syncBodies s.topics s.retained ∧ QDec s'.q s'.hist ∧ s'.q.done = [] ∧
-    s'.q.rest = tagged 0 s'.hist ∧ s'.sid = s.sid ∧ s'.topics = s.topics ∧ s'.synced = true ∧ s'.ackFloor = 0 := by
+/-- the sender after a clean start: queue cleared, the events of the window, one event per local topic and retained message,
+    cursor at the front, `synced`, `ackFloor = 0` -/
+theorem helloS_clean (s : Sender τ μ) (mid : List (PBody τ μ)) :
+    let s' := helloS s true 0 mid
+    s'.hist = mid ++ syncBodies (mid.foldl applyView s.topics) s.retained ∧ QDec s'.q s'.hist ∧ s'.q.done = [] ∧
+    s'.q.rest = tagged 0 s'.hist ∧ s'.sid = s.sid ∧ s'.topics = mid.foldl applyView s.topics ∧ s'.synced = true ∧
+    s'.ackFloor = 0 := by
   intro s'
-  have h0 : QDec (addAll s.q.clear (syncBodies s.topics s.retained)) ([] ++ syncBodies s.topics s.retained) ∧ _ :=
-    qdec_addAll (q := s.q.clear) (hist := []) qdec_empty (syncBodies s.topics s.retained)
+  generalize hbs : mid ++ syncBodies (mid.foldl applyView s.topics) s.retained = bs
+  have h0 : QDec (addAll s.q.clear bs) ([] ++ bs) ∧ _ := qdec_addAll (q := s.q.clear) (hist := []) qdec_empty bs
   obtain ⟨hq, hdone, hrest⟩ := h0
   simp only [List.nil_append] at hq
-  have hdone' : (addAll s.q.clear (syncBodies s.topics s.retained)).done = [] := by rw [hdone]; rfl
-  have hrest' : (addAll s.q.clear (syncBodies s.topics s.retained)).rest = tagged 0 (syncBodies s.topics s.retained) := by
+  have hdone' : (addAll s.q.clear bs).done = [] := by rw [hdone]; rfl
+  have hrest' : (addAll s.q.clear bs).rest = tagged 0 bs := by
     rw [hrest]; simp [EQ.clear, EQ.empty]
   have hq' := setpos_zero_front hq hdone' hrest'
-  have e : s' = { s with q := addAll s.q.clear (syncBodies s.topics s.retained), hist := syncBodies s.topics s.retained,
+  have e : s' = { s with q := addAll s.q.clear bs, hist := bs, topics := mid.foldl applyView s.topics,
                          synced := true, ackFloor := 0 } := by
-    show helloS s true 0 = _
-    simp only [helloS, if_true, hq']
+    show helloS s true 0 mid = _
+    simp only [helloS, if_true, hbs, hq']
   rw [e]
   exact ⟨rfl, hq, hdone', hrest', rfl, rfl, rfl, rfl⟩
 
 /-- after S has done a clean start against an EMPTY session of R carrying S's id, the invariant holds (stream up or not) -/
-theorem inv_after_clean {st : St τ μ} (r' : Receiver τ μ) (ss : Sess) (o : Bool)
+theorem inv_after_clean {st : St τ μ} (r' : Receiver τ μ) (ss : Sess) (o : Bool) (mid : List (PBody τ μ))
     (hr : r'.sess = some ss) (hid : ss.id = st.s.sid) (hn : ss.next = 0) (hseen : ss.seen.items = [])
     (happ : r'.applied = []) (hsubs : r'.subs = []) :
-    Inv ({ s := { helloS st.s true 0 with q := if o then (helloS st.s true 0).q.open else (helloS st.s true 0).q }
+    Inv ({ s := { helloS st.s true 0 mid with q := if o then (helloS st.s true 0 mid).q.open else (helloS st.s true 0 mid).q }
            r := r', c := { up := [], down := [], isOpen := o } } : St τ μ) := by
-  obtain ⟨hh, hq, hdone, hrest, hsid, htop, hsy, haf⟩ := helloS_clean st.s
-  generalize helloS st.s true 0 = s' at hh hq hdone hrest hsid htop hsy haf
+  obtain ⟨hh, hq, hdone, hrest, hsid, htop, hsy, haf⟩ := helloS_clean st.s mid
+  generalize helloS st.s true 0 mid = s' at hh hq hdone hrest hsid htop hsy haf
   have hqo : ∀ q' : EQ (PBody τ μ), (q' = s'.q.open ∨ q' = s'.q) →
       QDec q' s'.hist ∧ q'.rest = s'.q.rest ∧ q'.done = s'.q.done ∧ (q' = s'.q.open → q'.closed = false) := by
     rintro q' (h | h) <;> subst h
@@ -606,7 +636,7 @@ theorem inv_after_clean {st : St τ μ} (r' : Receiver τ μ) (ss : Sess) (o : B
   · intro _ t
     show t ∈ view s'.hist ↔ t ∈ s'.topics
     rw [hh, htop]
-    exact view_syncBodies _ _ t
+    exact view_mid_syncBodies _ _ _ t
   · intro ss' h; rw [hss ss' h]; show ss.id ≤ s'.sid; omega
   · intro hns; exact absurd hsy (by show ¬ s'.synced = true; rw [hns]; simp)
   · intro ho
@@ -687,7 +717,8 @@ theorem inv_resume {st : St τ μ} (hi : Inv st) (ss : Sess) (o : Bool) (hss : s
     · have : ss'.next < st.s.ackFloor := hf
       omega
 
-theorem inv_reconnect {cap : Nat} {st st' : St τ μ} (o : Bool) (hi : Inv st) (hs : step true cap st (.reconnect o) = some st') : Inv st' := by
+theorem inv_reconnect {cap : Nat} {st st' : St τ μ} (o : Bool) (mid : List (PBody τ μ)) (hi : Inv st)
+    (hs : step true cap st (.reconnect o mid) = some st') : Inv st' := by
   simp only [step] at hs
   by_cases ho : st.c.isOpen = true
   · simp [ho] at hs
@@ -700,7 +731,7 @@ theorem inv_reconnect {cap : Nat} {st st' : St τ μ} (o : Bool) (hi : Inv st) (
         have hcd : cleanDecision true st.s false ss.next = false := by
           simp [cleanDecision]; omega
         simp only [hcd, Bool.false_eq_true, if_false] at hs
-        have hS : helloS st.s false ss.next = { st.s with q := st.s.q.setReadPosition ss.next } := by
+        have hS : helloS st.s false ss.next mid = { st.s with q := st.s.q.setReadPosition ss.next } := by
           simp [helloS]
         rw [hS] at hs
         have := inv_resume hi ss o hss hid hfl
@@ -714,7 +745,7 @@ theorem inv_reconnect {cap : Nat} {st st' : St τ μ} (o : Bool) (hi : Inv st) (
           simp [cleanDecision]; omega
         simp only [hcd, if_true] at hs
         have stl := (hi.al ss hss hid).2 hlt
-        have := inv_after_clean (st := st) st.r ss o hss hid stl.next0 stl.seen0 stl.app0 stl.subs0
+        have := inv_after_clean (st := st) st.r ss o mid hss hid stl.next0 stl.seen0 stl.app0 stl.subs0
         cases o with
         | true => simp only [if_true, Option.some.injEq] at hs; subst hs; simpa using this
         | false =>
@@ -724,7 +755,7 @@ theorem inv_reconnect {cap : Nat} {st st' : St τ μ} (o : Bool) (hi : Inv st) (
       simp only [hcd, if_true] at hs
       have := inv_after_clean (st := st)
         { st.r with sess := some { id := st.s.sid, next := 0, seen := { items := [], size := cap } }, subs := [], applied := [] }
-        { id := st.s.sid, next := 0, seen := { items := [], size := cap } } o rfl rfl rfl rfl rfl rfl
+        { id := st.s.sid, next := 0, seen := { items := [], size := cap } } o mid rfl rfl rfl rfl rfl rfl
       cases o with
       | true => simp only [if_true, Option.some.injEq] at hs; subst hs; simpa using this
       | false =>
@@ -811,7 +842,7 @@ theorem step_inv {cap : Nat} {st st' : St τ μ} (l : Label τ μ) (hi : Inv st)
   | deliver ok => exact inv_deliver ok hi hs
   | deliverAck => exact inv_deliverAck hi hs
   | brk => exact inv_brk hi hs
-  | reconnect o => exact inv_reconnect o hi hs
+  | reconnect o mid => exact inv_reconnect o mid hi hs
   | helloLost => exact inv_helloLost hi hs
   | helloFail => exact inv_helloFail hi hs
   | peerRestart => exact inv_peerRestart hi hs
@@ -952,7 +983,7 @@ theorem inv_reaches_quiescence {cap : Nat} {st : St τ μ} (hi : Inv st) :
   · obtain ⟨ls, st', h1, h2, h3, h4, h5⟩ := drain (cap := cap) _ st hi ho rfl
     exact ⟨ls, st', h1, h2, h3, run_inv ls hi h2, h4, h5⟩
   · have hc : st.c.isOpen = false := by simpa using ho
-    have hs : ∃ st1, step true cap st (.reconnect true) = some st1 ∧ st1.c.isOpen = true ∧ st1.s.topics = st.s.topics ∧
+    have hs : ∃ st1, step true cap st (.reconnect true []) = some st1 ∧ st1.c.isOpen = true ∧ st1.s.topics = st.s.topics ∧
         st1.s.sid = st.s.sid := by
       simp only [step, hc, Bool.false_eq_true, if_false, if_true]
       refine ⟨_, rfl, rfl, ?_, ?_⟩
@@ -963,14 +994,14 @@ theorem inv_reaches_quiescence {cap : Nat} {st : St τ μ} (hi : Inv st) :
     obtain ⟨st1, hs1, ho1, ht1, hsd1⟩ := hs
     have hi1 := step_inv _ hi hs1
     obtain ⟨ls, st', h1, h2, h3, h4, h5⟩ := drain (cap := cap) _ st1 hi1 ho1 rfl
-    have hall : ∀ l ∈ Label.reconnect true :: ls, Label.isStable l = true := by
+    have hall : ∀ l ∈ Label.reconnect true [] :: ls, Label.isStable l = true := by
       intro l hl
       simp at hl
       rcases hl with h | h
       · subst h; rfl
       · exact h1 l h
-    refine ⟨.reconnect true :: ls, st', hall, by simp [run, hs1, h2], h3, ?_, by rw [h4, ht1], by rw [h5, hsd1]⟩
-    exact run_inv (cap := cap) (.reconnect true :: ls) hi (by simp [run, hs1, h2])
+    refine ⟨.reconnect true [] :: ls, st', hall, by simp [run, hs1, h2], h3, ?_, by rw [h4, ht1], by rw [h5, hsd1]⟩
+    exact run_inv (cap := cap) (.reconnect true [] :: ls) hi (by simp [run, hs1, h2])
 
 /-! ### restarts -/
 
@@ -1004,10 +1035,10 @@ theorem unaligned_after_restart {cap : Nat} {st st1 : St τ μ} (hi : Inv st) (l
 /-! ### the code before 086aedd (`fixed = false`): concrete schedule with a lost Hello answer that breaks the prefix property -/
 
 def lostHelloSchedule : List (Label Nat Nat) :=
-  [.reconnect true, .emit (.sub 1), .fetchSend, .deliver true, .deliverAck,   -- event 0 = Subscribe 1: sent, applied, acked
+  [.reconnect true [], .emit (.sub 1), .fetchSend, .deliver true, .deliverAck,   -- event 0 = Subscribe 1: sent, applied, acked
    .peerRestart,                                                              -- R restarts: session and federation tree lost
    .helloLost,                                                                -- R creates a new session, answer clean_start lost
-   .reconnect true,                                                           -- retry: same session id ⇒ clean_start=false, next=0
+   .reconnect true [],                                                        -- retry: same session id ⇒ clean_start=false, next=0
    .emit (.sub 2), .fetchSend, .deliver true]                                 -- event 1 = Subscribe 2 is applied as the first event
 
 def summary (st : St Nat Nat) :=
